@@ -102,7 +102,7 @@ def reader_tables(fns, consts):
                 unknown = calls[0]
         if unknown is None:
             raise Fail("fn %s: no default arm" % fn)
-        deferred = re.findall(r"if let Some\(table\) = (\w+) \{ %s\.(visit_\w+)\(table\)\?; \}" % re.escape(vis), norm(body))
+        deferred = [(d[0], d[1]) for d in A.deferred_deliveries(norm(body), vis, None, fn)]
         out[cname] = (visits, unknown, deferred)
     return out, lv_kinds
 
@@ -270,8 +270,8 @@ def step_shapes(v, finish_owner):
          lambda m: ("SExc",)),
         (r"if let Some\(last_label\) = self\.last_label \{ %s\.visit_last_label\(last_label\)\?; \} " % V,
          lambda m: ("SLast",)),
-        (r"if interests\.(%s) \|\| interests\.(%s) \{ if let Some\((%s)\) = self\.(%s) \{ let was_empty = \3\.is_empty\(\); let \3: Vec<_> = \3\.into_iter\(\) \.filter\(\|lv\| \(lv\.(%s)\.is_some\(\) && interests\.(%s)\) \|\| \(lv\.(%s)\.is_some\(\) && interests\.(%s)\)\) \.collect\(\); if was_empty \|\| !\3\.is_empty\(\) \{ %s\.(visit_\w+)\(\3\)\?; \} \} \} " % (ID, ID, ID, ID, ID, ID, ID, ID, V),
-         lambda m: ("SLocals", [m.group(1), m.group(2)], m.group(4), m.group(9), [(m.group(5), m.group(6)), (m.group(7), m.group(8))])),
+        (r"if interests\.(%s) \|\| interests\.(%s) \{ if let Some\((%s)\) = self\.(%s) \{ let \3: Vec<_> = \3\.into_iter\(\) \.filter\(\|lv\| \(lv\.(%s)\.is_some\(\) && interests\.(%s)\) \|\| \(lv\.(%s)\.is_some\(\) && interests\.(%s)\)\) \.collect\(\); if !\3\.is_empty\(\) \|\| \(interests\.(%s) && interests\.(%s)\) \{ %s\.(visit_\w+)\(\3\)\?; \} \} \} " % (ID, ID, ID, ID, ID, ID, ID, ID, ID, ID, V),
+         lambda m: ("SLocals", [m.group(1), m.group(2)], m.group(4), m.group(11), [(m.group(5), m.group(6)), (m.group(7), m.group(8))], [m.group(9), m.group(10)])),
     ]
 
 
@@ -341,8 +341,9 @@ def g_step(st):
     if k == "SMembers":
         return "SMembers %s %s %s %s" % (gstr(st[1]), gstr(st[2]), gstr(st[3]), "true" if st[4] else "false")
     if k == "SLocals":
-        return "SLocals [%s] %s %s [%s]" % ("; ".join(gstr(f) for f in st[1]), gstr(st[2]), gstr(st[3]),
-                                            "; ".join("(%s, %s)" % (gstr(a), gstr(b)) for a, b in st[4]))
+        return "SLocals [%s] %s %s [%s] [%s]" % ("; ".join(gstr(f) for f in st[1]), gstr(st[2]), gstr(st[3]),
+                                                 "; ".join("(%s, %s)" % (gstr(a), gstr(b)) for a, b in st[4]),
+                                                 "; ".join(gstr(f) for f in st[5]))
     raise Fail("internal: step %r" % (st,))
 
 
